@@ -216,10 +216,12 @@ def translate(ra, dec, r, theta):
             * np.cos(np.radians(theta))
     dec_out = np.degrees(np.arcsin(factor))
 
-    y = np.sin(np.radians(theta)) * np.sin(np.radians(r)) \
-        * np.cos(np.radians(dec))
-    x = np.cos(np.radians(r)) - np.sin(np.radians(dec)) \
-        * np.sin(np.radians(dec_out))
+    # cos(r) - sin(dec)sin(dec_out) = cos(dec) * x, written without the
+    # cancellation that loses the direction when starting at a pole
+    y = np.sin(np.radians(theta)) * np.sin(np.radians(r))
+    x = np.cos(np.radians(dec)) * np.cos(np.radians(r)) \
+        - np.sin(np.radians(dec)) * np.sin(np.radians(r)) \
+        * np.cos(np.radians(theta))
     ra_out = ra + np.degrees(np.arctan2(y, x))
     return ra_out, dec_out
 
